@@ -402,10 +402,72 @@ def run(model: RepoModel, rep, tier: str):
     generic2.check_per_iteration_values(model, rep, "C01.R10", [PY, "lang/common_parser.py"])
     rep.rule("C01.R11", "augmented assignment keeps operand order: `t op= e` and `place op= e` lower to old-value <op> e", 4)
     generic2.check_augmented_operand_order(model, rep, "C01.R11", [PY])
+    _r13_keyword_selectors(model, rep)
     rep.rule("C01.R12", "the tree rewriters of the normalisation passes hand their state down: a recursive call that forwards some of its state "
                         "parameters unchanged forwards all of them", 2)
     generic2.check_recursion_forwarding(model, rep, "C01.R12", ["events/default_event_handlers/basic.py", "events/default_event_handlers/add_var_decl.py",
                                                               "lang/common_parser.py"])
+
+
+def _r13_keyword_selectors(model: RepoModel, rep):
+    """The source-text preprocessors that run before parsing pick the lines they rewrite by a leading keyword.  The test has to match
+    the keyword as a whole word: `startswith("import ")`, or a regular expression in which the keyword is followed by a boundary or a
+    non-word character.  A bare prefix also selects statements whose first identifier merely begins with the keyword
+    (`imported = load()`), which are then rewritten into something else and vanish from the GIR."""
+    import keyword as _kw
+    import re._parser as sre
+    rep.rule("C01.R13", "source preprocessors select lines by a whole keyword: a prefix test on a line ends the keyword with a delimiter", 1)
+    BASIC_ = "events/default_event_handlers/basic.py"
+    n = 0
+    for f in model.module(BASIC_).all_funcs():
+        if not f.name.startswith("preprocess"):
+            continue
+        for c in walk_no_nested(f.node):
+            if not isinstance(c, ast.Call):
+                continue
+            word = rest_ok = None
+            if isinstance(c.func, ast.Attribute) and c.func.attr == "startswith" and c.args and isinstance(c.args[0], ast.Constant) and isinstance(c.args[0].value, str):
+                txt = c.args[0].value
+                m = __import__("re").match(r"[A-Za-z_]+", txt)
+                if not m or not _kw.iskeyword(m.group(0)):
+                    continue
+                word, rest_ok = m.group(0), len(txt) > m.end() and not (txt[m.end()].isalnum() or txt[m.end()] == "_")
+            elif (call_name(c) or "") in ("re.match", "re.search", "re.fullmatch") and c.args and isinstance(c.args[0], ast.Constant) and isinstance(c.args[0].value, str):
+                try:
+                    items = list(sre.parse(c.args[0].value))
+                except Exception:
+                    continue
+                i = 0
+                while i < len(items) and str(items[i][0]) in ("AT",):      # leading ^
+                    i += 1
+                w = ""
+                while i < len(items) and str(items[i][0]) == "LITERAL" and (chr(items[i][1]).isalnum() or chr(items[i][1]) == "_"):
+                    w += chr(items[i][1])
+                    i += 1
+                if not w or not _kw.iskeyword(w):
+                    continue
+                word = w
+                if i >= len(items):
+                    rest_ok = (call_name(c) == "re.fullmatch")
+                else:
+                    op, av = str(items[i][0]), items[i][1]
+                    rest_ok = (op == "AT" and "BOUNDARY" in str(av) and "NON" not in str(av)) or (op == "LITERAL" and not (chr(av).isalnum() or chr(av) == "_")) \
+                        or (op == "IN" and all(str(x[0]) == "CATEGORY" and "SPACE" in str(x[1]) and "NOT" not in str(x[1]) for x in av)) \
+                        or (op == "MAX_REPEAT" and av[0] >= 1 and all(str(x[0]) == "IN" and all(str(y[0]) == "CATEGORY" and "SPACE" in str(y[1]) and "NOT" not in str(y[1])
+                                                                                               for y in x[1]) for x in av[2]))
+            if word is None:
+                continue
+            n += 1
+            key = f"{BASIC_}::{f.qualname}::lines selected by the keyword `{word}`::whole word"
+            if rest_ok:
+                rep.holds("C01.R13", key, BASIC_, c.lineno, f"`{norm(c)[:80]}`")
+            else:
+                rep.violation("C01.R13", key, BASIC_, c.lineno,
+                              f"{f.qualname} selects the lines it rewrites with `{norm(c)[:80]}`: nothing ends the keyword `{word}`, so a statement whose "
+                              f"first identifier merely starts with it (`{word}ed = load()`, `{word}ance = 3`) is rewritten as if it were a "
+                              f"`{word}` statement and its assignment disappears from the GIR")
+    if not n:
+        raise AnalysisError("no keyword line selector found in the preprocess_* handlers of basic.py")
 
 
 def check_receiver_param_removal(model: RepoModel, rep, RID: str, declare: bool = False):
